@@ -30,7 +30,10 @@ def run_batch(requests, chunk=20000):
                            stdout=subprocess.PIPE, stderr=subprocess.PIPE)
         if p.returncode != 0:
             raise DriverError("driver exited %d: %s" % (p.returncode, p.stderr.decode()[-2000:]))
-        lines = p.stdout.decode().splitlines()
+        # one answer per line: split on LF only (str.splitlines also splits on U+2028, CR, FF … inside JSON strings)
+        lines = p.stdout.decode().split("\n")
+        if lines and lines[-1] == "":
+            lines.pop()
         if len(lines) != len(part):
             raise DriverError("driver answered %d lines for %d requests; stderr: %s"
                               % (len(lines), len(part), p.stderr.decode()[-2000:]))
